@@ -73,12 +73,16 @@ CHECKS.update({
                 note='programs enumerated; class order inside the analyser, generic bases, module merge order, >2 function declarations and printed output are outside. Found and fixed: forward calls checked against an empty signature (6269c7c); derived-before-base classes got an empty inherited layout (a0e74ab).',
                 ref='DESIGN.md §2 C10', tech=TECH_SAT),
     'C16': dict(text='Real SemanticAnalyser::analyse on hand-built programs, each rule instance in each enumerated position with its violation-free twin: use before declaration (initialiser, assignment, echo, condition), '
-                     'writes to a final local (AssignmentStatement, PostfixExpression, AssignmentExpression), primitive initialiser compatibility (7x7 types, int->long widening only).',
-                note='three rule kernels of the long list; visibility, void results, static/abstract instantiation, this/super in static context, annotations, null, final fields, classes/arrays/generics are outside; node positions symbolic, programs enumerated.',
+                     'writes to a final local (AssignmentStatement, PostfixExpression, AssignmentExpression), primitive initialiser compatibility (7x7 types, int->long widening only), reference-type compatibility in initialisers and assignments (int/Foo/Sub <- int literal, new Foo/Bar/Sub, null; Sub extends Foo, Bar unrelated).',
+                note='four rule kernels of the long list; visibility, void results, static/abstract instantiation, this/super in static context, annotations, final fields, arrays/generics, argument and return positions are outside; node positions symbolic, programs enumerated. Found and fixed: class-typed values were never type-checked in initialisers/assignments (2ed8395).',
                 ref='DESIGN.md §2 C16', tech=TECH_SAT),
 })
+CHECKS.update({
+    'C08': dict(text='Real buildClassTable + eval(member CallExpression) + findMethod + callMethod on one hand-built hierarchy (A <- B <- C, two overloads of m, super.m()): for every (static class, dynamic class, call) combination the body that runs is the most-derived override of the dynamic class for the overload matching the argument (exact match over widening at any level), super.m() runs the base version on the same receiver, also from inside a virtually dispatched override; real runConstructorChain: base initialisers, base body, own initialisers, own body (argument symbolic).',
+                note='two kernels of the object model only: analyser-side overload resolution, reference-typed overload parameters, static fields, generics, destructors/destroy order and printed output of whole programs are NOT encoded; the hierarchy is fixed, objects are built directly. Found and fixed: super.m() lost the receiver (7fa3323); an override reached by virtual dispatch ran in the static class\'s context (2eb8b07). The class-table defects found with the same harness are recorded under C10 and C12.',
+                ref='DESIGN.md §2 C08', tech=TECH_SAT),
+})
 NA = {
-    'C08': 'needs buildClassTable/instantiateGeneric on whole class hierarchies plus analyser overload resolution; parse() of `class A { }` and exec of a single statement do not get through CBMC (300-900 s, 30 GB): out of reach at the depth the property quantifies over',
     'C11': 'needs exec/eval of call and new expressions with collections triggered at symbolic statement boundaries; exec of a single statement gives no verdict (900 s, 30 GB); the data-race clause needs a thread model CBMC does not get from this translation',
     'C18': 'needs two complete execute() runs of a parsed program inside one query; a single statement already exceeds the budget',
     'C19': 'import resolution is std::filesystem + ifstream around a DFS: needs a symbolic file system and a model of filesystem::path, neither within reach of the IR->C/CBMC route',
